@@ -128,7 +128,11 @@ def has_ctrl_in_operand(recipe, in_operand=False):
     if k == "wide":
         return any(has_ctrl_in_operand(a, True) for a in recipe[1] + recipe[2])
     if k == "call":
-        return any(has_ctrl_in_operand(a, True) for a in recipe[2])
+        return any(has_ctrl_in_operand(a, True) for a in recipe[2] if isinstance(a, tuple) and a[0] not in ("varref", "paramref"))
+    if k in ("varref", "paramref", "param", "refload"):
+        return False
+    if k == "refstore":
+        return has_ctrl_in_operand(recipe[2], True)
     return False
 
 
